@@ -1,7 +1,10 @@
 #!/bin/sh
 # apply a seeded patch to /repo, run the quick check of a property, undo; usage: try_mutant.sh <patch> <PROP> [extra check.py args]
+# the evidence file of the property is saved and restored: evidence committed in /verif always comes from the unchanged tree
 P=$1; PROP=$2; shift 2
 git -C /repo apply $P || { echo "PATCH-DOES-NOT-APPLY"; exit 2; }
+cp /verif/evidence/$PROP.json /tmp/evidence_$PROP.bak 2>/dev/null
 python3 /verif/tools/check.py $PROP quick "$@" > /tmp/try_$PROP.log 2>&1; RC=$?
 git -C /repo checkout -- .
+cp /tmp/evidence_$PROP.bak /verif/evidence/$PROP.json 2>/dev/null
 echo "check exit=$RC"; grep -E "^VIOLATION|^UNDECIDED|^OK|^KNOWN" /tmp/try_$PROP.log | cut -c1-220 | head -8
